@@ -190,6 +190,20 @@ def judge_file(data, st, case, quick_blocks=None):
                      'read after an abandoned reader and in lockstep with '
                      'another: %r' % e, dict(case, other_reader='lockstep'))
 
+    # 1b+. a reader made on a stream that is still empty and filled before
+    #      the first record is asked for (a spool written afterwards)
+    late = io.BytesIO()
+    reader = ns_.DiffXReader(late)
+    late.write(data)
+    late.seek(0)
+    recs, e = sut.read_records_from_reader(reader)
+    runs += 1
+
+    if e is not None or not same(recs, base):
+        st.violation('records-depend-on-when-the-stream-was-filled',
+                     'reader constructed before the data was written: %r'
+                     % e, dict(case, other_reader='late-filled'))
+
     # 1b''. whitespace-only lines and empty lines with the other newline
     #       style before a header: a reader may refuse them, but if it
     #       accepts them the records must not change
